@@ -278,6 +278,11 @@ def gen_shared(rng, idx):
 def gen_net(rng, idx, profile):
     import netgen
 
+    if profile == "ranks":
+        # every accelerated operator kind on ranks 1-4 (5-6 rarely), positive and negative axis attributes (harness/gen_ranksweep.py)
+        import gen_ranksweep
+
+        return gen_ranksweep.c01_net(rng, idx, make_builder)
     if profile == "ssmask":
         # STRIDED_SLICE mask algebra on ranks 1-4 (harness/gen_ssmask.py)
         import gen_ssmask
@@ -620,6 +625,36 @@ def corpus_net(rng, name):
             y = b.pool(x, "AVERAGE_POOL_2D", (2, 2), (1, 4), "VALID")
             z = b.reshape(y, [1, 84])
         return b.finish([z])
+    if name in ("known_unpack_negative_axis", "known_slice_size_minus1", "known_transpose_rank2_identity", "known_slice_end_clamped"):
+        # round 5 (rank sweep / STRIDED_SLICE mask algebra): deterministic witnesses of C13-50, C13-51, C01-46, C01-45
+        b = make_builder(rng, name, "int8")
+        if name == "known_unpack_negative_axis":
+            x = b.input([3, 2, 4], scale=0.05, zp=3)
+            parts = [b.fm([3, 4], "int8", scale=0.05, zp=3) for _ in range(2)]
+            b.net.ops.append(netgen.Op("UNPACK", [x], parts, ("UnpackOptions", dict(Num=2, Axis=-2))))
+            return b.finish([b.unary("RELU", parts[0]), b.unary("RELU", parts[1])])
+        if name == "known_slice_size_minus1":
+            x = b.input([4, 8, 4], scale=0.05, zp=3)
+            bt = b.const([3], "int32", [0, 7, 0], name=b.fresh("begin"))
+            st = b.const([3], "int32", [-1, 1, 4], name=b.fresh("size"))
+            y = b.fm([4, 1, 4], "int8", scale=0.05, zp=3)
+            b.net.ops.append(netgen.Op("SLICE", [x, bt, st], [y], ("SliceOptions", {})))
+            return b.finish([b.unary("RELU", y)])
+        if name == "known_transpose_rank2_identity":
+            x = b.input([6, 3], scale=0.05, zp=3)
+            r = b.unary("RELU", x)
+            pt = b.const([2], "int32", [0, 1], name=b.fresh("perm"))
+            t_ = b.fm([6, 3], "int8", scale=0.05, zp=3)
+            b.net.ops.append(netgen.Op("TRANSPOSE", [r, pt], [t_], ("TransposeOptions", {})))
+            return b.finish([b.unary("RELU6", t_)])
+        x = b.input([3, 4], scale=0.05, zp=3)
+        bt = b.const([2], "int32", [1, -3], name=b.fresh("begin"))
+        et = b.const([2], "int32", [3, 11], name=b.fresh("end"))
+        st = b.const([2], "int32", [1, 1], name=b.fresh("strides"))
+        y = b.fm([2, 3], "int8", scale=0.05, zp=3)
+        b.net.ops.append(netgen.Op("STRIDED_SLICE", [b.unary("RELU", x), bt, et, st], [y], ("StridedSliceOptions", dict(
+            BeginMask=0, EndMask=0, EllipsisMask=0, NewAxisMask=0, ShrinkAxisMask=0))))
+        return b.finish([b.unary("RELU", y)])
     if name == "known_protected_reshape_inplace":
         b = make_builder(rng, name, "int8")
         x = b.input([1, 8, 12, 17], scale=0.05, zp=3)
@@ -871,6 +906,8 @@ def _worker(job):
                    src_pads={i: np.asarray(t.data).reshape(-1, 2).tolist() for i, t in enumerate(net.tensors)
                              if t.data is not None and t.dtype == "int32" and np.asarray(t.data).size in (6, 8)},
                    src_outputs=list(net.outputs),
+                   src_opts=[{k: (v if isinstance(v, (int, float, bool, str)) else list(v)) for k, v in (o.opts[1] if o.opts else {}).items()}
+                             for o in net.ops],
                    src_dil=[max(int((o.opts[1] if o.opts else {}).get("DilationWFactor", 1)), int((o.opts[1] if o.opts else {}).get("DilationHFactor", 1)))
                             for o in net.ops],
                    src_tinfo=[(list(t.shape), t.dtype, [float(x) for x in (t.scales or [])], [int(z) for z in (t.zps or [])],
@@ -1053,6 +1090,16 @@ def classify_failure(o, ans):
     is consulted; the verdict itself is Lean's."""
     g = o.get("src_graph") or []
     if ans.endswith("verdict=fail") or ans.startswith("err:out:"):
+        # rank sweep (harness/gen_ranksweep.py): three lowerings that mishandle a legal attribute value (repairs pending)
+        ti, sopts = o.get("src_tinfo") or [], o.get("src_opts") or []
+        for n_op, (kind, ins, outs, faf, pad, stride) in enumerate(g):
+            if kind == "UNPACK" and n_op < len(sopts) and int(sopts[n_op].get("Axis", 0)) < 0:
+                return "unpack-negative-axis-converted-with-the-rule-of-pack"
+            if kind == "SLICE" and len(ins) > 2 and ins[2] < len(ti) and ti[ins[2]][4] is not None and -1 in ti[ins[2]][4]:
+                return "slice-size-minus-one-not-resolved"
+            if kind == "TRANSPOSE" and len(ins) > 1 and ins[0] < len(ti) and len(ti[ins[0]][0]) == 2 and ins[1] < len(ti) and ti[ins[1]][4] == [0, 1]:
+                return "transpose-rank2-identity-executed-as-transposition"
+    if ans.endswith("verdict=fail") or ans.startswith("err:out:"):
         # STRIDED_SLICE begin below -dim / end above dim: the reference clamps, constraint_slice_ranges does not (patch C01-45)
         import gen_ssmask
 
@@ -1209,9 +1256,11 @@ def main():
                                                               "resize_reshape", "mean_reshape", "widepool_reshape",
                                                               "transpose_relu", "sqdiff_reshape", "dilation3_uint8", "shared_dilation3", "shared_tconv",
                                                               "prelu_reshape", "transpose_lut_mul", "protected_reshape_inplace",
-                                                              "tconv_stride1_same_even", "tconv_stride1_valid", "pad_folded_conv", "shared_fold_same_valid")]
+                                                              "tconv_stride1_same_even", "tconv_stride1_valid", "pad_folded_conv", "shared_fold_same_valid",
+                                                              "unpack_negative_axis", "slice_size_minus1", "transpose_rank2_identity", "slice_end_clamped")]
     # round-5 families first (so that the wall-clock budget of the quick tier never cuts them)
     jobs += [(ck.seed, i, "ssmask", k_inputs) for i in range(2400 if ck.thorough else 300)]
+    jobs += [(ck.seed, i, "ranks", k_inputs) for i in range(3024 if ck.thorough else 378)]      # 21 kinds x 6 x 3 axis variants
     jobs += [(ck.seed, i, PROFILES[i % len(PROFILES)], k_inputs) for i in range(n)]
     ctx = multiprocessing.get_context("fork")
     t0 = time.time()
